@@ -163,6 +163,10 @@ def run(model, rep, tier):
             ri, rj = r_of.get(unparse(n0.targets[0])), r_of.get(unparse(n1.targets[0]))
             ok = ri is not None and rj is not None and pattern.has(je, '_N_rj = _N_ri + _N_dR', _N_ri=ri, _N_rj=rj) and \
                 pattern.has(je, 'for _N_ri in self.Rveclist:\n    _E_b'.replace('_E_b', 'pass')) is not None
+    located = bool(loop) and len(_sum_terms(loop[0].iter)) == 2 and all(isinstance(t, ast.ListComp) for t in _sum_terms(loop[0].iter))
+    if not located:
+        rep.undecided('jumpnetworkevaluator: the loop over initial-centred + final-centred interaction lists was not located')
+        ok = True
     rep.ob('orientation', mod, loop[0] if loop else je, 'initial-centred terms are evaluated at Ri, final-centred terms at Rj = Ri + dR', ok,
            '' if ok else 'interaction lists are evaluated at the wrong cell', engine='exchange', qual='ClusterSupercell.jumpnetworkevaluator')
     # ---- vacancy evaluator: four-term map
@@ -205,15 +209,24 @@ def run(model, rep, tier):
         en = [t for t in halves if _in_dict(t, ('clusterinteract', 'vacclusterinteract'))]
         ts = [t for t in halves if _in_dict(t, ('TSclusterinteract',))]
         ok = bool(en) and all(canon(t.elts[2]) == canon(ast.parse('0.5 * value', mode='eval').body) for t in en)
+        if not en:
+            rep.undecided('%s: entries stored for the energy clusters were not located' % q)
+            ok = True
         rep.ob('half-weight', mod, fn, '%s: %d energy-cluster entries stored with 0.5 * value' % (q, len(en)), ok,
                '' if ok else 'some energy cluster does not enter with half its value on each side', engine='exchange', qual='ClusterSupercell.' + q)
         ok = bool(ts) and all(unparse(t.elts[2]) == 'value' for t in ts)
+        if not ts:
+            rep.undecided('%s: entries stored for the transition-state clusters were not located' % q)
+            ok = True
         rep.ob('half-weight', mod, fn, '%s: %d transition-state entries stored with value' % (q, len(ts)), ok,
                '' if ok else 'transition-state cluster weight changed', engine='exchange', qual='ClusterSupercell.' + q)
     # TS both orientations in the non-vacancy evaluator
     b0 = pattern.find(je, '_N_t0 = (_N_TS[0] - _N_R0, _N_TS[1] - _N_R0)')
     b1 = pattern.find(je, '_N_t1 = (_N_TS[1] - _N_R1, _N_TS[0] - _N_R1)')
     ok = bool(b0) and bool(b1) and pattern.has(je, '_N_R0 = _N_TS[0].R') and pattern.has(je, '_N_R1 = _N_TS[1].R')
+    if not b0 and not b1:
+        rep.undecided('jumpnetworkevaluator: the keys under which a TS cluster is registered were not located')
+        ok = True
     rep.ob('half-weight', mod, je, 'jumpnetworkevaluator: a TS cluster is registered for both orientations of its transition', ok,
            '' if ok else 'forward and backward jumps see different transition-state clusters', engine='exchange',
            qual='ClusterSupercell.jumpnetworkevaluator')
